@@ -11,7 +11,7 @@ def main():
     for p in props:
         mod = importlib.import_module("harness.props." + p.lower())
         try:
-            text = mod.extract(Ctx(p, "quick", 0))
+            text = mod.extract(Ctx(p, "quick", 0)) if hasattr(mod, "extract") else None
         except Exception:
             traceback.print_exc()
             text = None
